@@ -536,7 +536,7 @@ func (e *Eng) verifyFunc(fc *FuncContract, refute bool, unrollK int) (res *FuncR
 	if tr.recovering && (fc.HasModifies || fc.Pure) && !refute {
 		tr.storeChecks = true
 		for _, m := range fc.Modifies {
-			tr.fnFrame = append(tr.fnFrame, ctx.evalLval(m.E)...)
+			tr.fnFrame = append(tr.fnFrame, ctx.lvals(m.E)...)
 		}
 	}
 	// vacuity guard: the preconditions (with typing facts) must be satisfiable
@@ -619,7 +619,7 @@ func (tr *FnTr) checkPost(fc *FuncContract, fn *ssa.Function, results []Val, kin
 		var frame []cellRange
 		ectx := tr.calleeCtx(fn, tr.params, nil, tr.entry, tr.entry)
 		for _, m := range fc.Modifies {
-			frame = append(frame, ectx.evalLval(m.E)...)
+			frame = append(frame, ectx.lvals(m.E)...)
 		}
 		lbl := "exit"
 		if exc {
